@@ -143,7 +143,11 @@ class TriggerHandler:
         except BaseException:
             # this function is called by python in the middle of the user code, anything we let out of here is
             # raised in that code (and python then stops tracing the thread), so nothing is allowed out
-            logging.exception("Cannot process event %s", event)
+            try:
+                logging.exception("Cannot process event %s", event)
+            except BaseException:
+                # reporting can fail for the reason we got here (e.g. no stack left at the recursion limit)
+                pass
             return self.trace_call
 
     def _trace_call(self, frame: FrameType, event: str, arg):
